@@ -19,6 +19,7 @@ def run(ck, fb):
     r12k(ck, fb)
     r12l(ck, fb)
     r12m(ck, fb)
+    ck.borrow('rules.c11', {'R11g': 'R12n'}, 'a connection that ends takes its ephemeral instances with it only if every instance it registered is in its owner set')
     ck.borrow('rules.c13', {'R13b': 'R12i'}, 'a live gRPC or persistent registration must not be expired by a stale heartbeat entry queued for the same address')
 
 
